@@ -46,13 +46,13 @@ FLOORS = {
                            "fs_filename_checks": 300, "async_cases": 400,
                            "site_after_stripped_newlines": 300, "crossed_template": 500,
                            "multiline_before_site": 2500}},
-    # thorough: 960k evaluations / 913k distinct in 281 s (count-bounded, close
-    # to the time box)
-    "thorough": {"evaluations": 240000, "distinct": 220000,
-                 "counters": {"runtime_line_checks": 160000, "syntax_line_checks": 80000,
-                              "fs_filename_checks": 50000, "async_cases": 80000,
-                              "site_after_stripped_newlines": 55000, "crossed_template": 100000,
-                              "multiline_before_site": 230000}},
+    # thorough: 960k evaluations / 913k distinct in 281 s (count-bounded) at load
+    # ~1x, 417k / 403k (time-boxed) at load ~4x; floors = 1/4 of the latter
+    "thorough": {"evaluations": 100000, "distinct": 95000,
+                 "counters": {"runtime_line_checks": 65000, "syntax_line_checks": 32000,
+                              "fs_filename_checks": 21000, "async_cases": 32000,
+                              "site_after_stripped_newlines": 24000, "crossed_template": 44000,
+                              "multiline_before_site": 95000}},
 }
 
 SITE = "\x00SITE\x00"
